@@ -183,7 +183,24 @@ func keysOf(us []*url.URL) []string {
 }
 
 func c02Script(c *Ctx) {
+	hung := false
 	c.Cases("hist", c.N(2500, 60000), func(i int, r *rand.Rand) {
+		if hung {
+			return
+		}
+		// nothing in a case can block except a call into the balancer / rebalancer (recorders, no sockets)
+		if !c.Guard(90*time.Second, func() { c02ScriptCase(c, i, r) }) {
+			hung = true
+			c.Violation("hang", "a call into the balancer (request, pool change or inspection) did not return within 90s: the balancer is blocked, typically a lock that was not released on some path", map[string]any{"case": i})
+		}
+	})
+	c.Require("histories_nontrivial", 2)
+	c.Require("remove_unknown_checked", 1)
+	c.Require("unservable_pool_checks", 1)
+}
+
+func c02ScriptCase(c *Ctx, i int, r *rand.Rand) {
+	{
 		kind := pick(r, []string{"rr", "rb", "rb"})
 		meterMode := "never"
 		if kind == "rb" {
@@ -390,6 +407,21 @@ func c02Script(c *Ctx) {
 					return
 				}
 				continue
+			case op < 5 && r.IntN(5) == 0 && kind == "rb" && meterMode != "default" && func() bool { _, ex := model[k]; return ex }():
+				// the meter factory is out of order while an EXISTING member is re-weighted: no new meter is needed for
+				// that, the call succeeds and the member stays where it is
+				w := 1 + r.IntN(5)
+				script = append(script, sfmt("upsert(%s,w=%d) of a member while the meter factory fails", u.String(), w))
+				t.failMeter.Store(true)
+				err := t.upsert(u, roundrobin.Weight(w))
+				t.failMeter.Store(false)
+				if err != nil {
+					fail("upsert/error", "re-weighting an existing member failed because the meter factory (not needed for it) fails: "+err.Error())
+					return
+				}
+				model[k] = w
+				changed = true
+				c.Count("reweights_with_failing_meter_factory", 1)
 			case op < 5 && r.IntN(3) == 0: // an upsert whose option is rejected must fail and change nothing
 				_, existed := model[k]
 				w := r.IntN(7)
@@ -502,10 +534,7 @@ func c02Script(c *Ctx) {
 		if i < 2 {
 			c.Sample(map[string]any{"target": kind, "meters": meterMode, "script_prefix": script[:min(len(script), 10)]})
 		}
-	})
-	c.Require("histories_nontrivial", 2)
-	c.Require("remove_unknown_checked", 1)
-	c.Require("unservable_pool_checks", 1)
+	}
 }
 
 // c02Mutate: nothing a downstream handler does to the request alters the pool.
